@@ -708,6 +708,15 @@ PPL::MIP_Problem::process_pending_constraints() {
       unfeasible_tableau_rows.push_back(unfeasible_row);
     }
   }
+  if (!unfeasible_tableau_rows.empty()) {
+    // The negative part of a re-merged variable was in base: the vertex
+    // encoded by the tableau is no longer `last_generator', so that the
+    // pending inequalities satisfied by `last_generator' are not known
+    // to be satisfied by the current vertex: they need an artificial
+    // variable like all the other pending constraints.
+    std::fill(is_satisfied_inequality.begin(), is_satisfied_inequality.end(),
+              false);
+  }
 
   const dimension_type old_tableau_num_rows = tableau.num_rows();
   const dimension_type old_tableau_num_cols = tableau.num_columns();
